@@ -18,7 +18,7 @@ framer.parseFrame (which re-panics runtime.Error), so a panic raised at any of t
 goroutine it runs on, i.e. the process: that is outcome `crash`.
 
 `fx = false` is the code that exists; `fx = true` is the code after the proposed fixes
-(props/C05.disp.fix-*.diff): heartbeat `default:` treats the frame as a failed heartbeat instead of
+(props/C05.fix-{16,17,18,19}.diff): heartbeat `default:` treats the frame as a failed heartbeat instead of
 `panic`, authenticateHandshake returns an error when AUTH_CHALLENGE arrives and the authenticator
 gave no challenger.
 
